@@ -68,6 +68,9 @@ def obligations(tier):
             if tier == 'quick' and stack == 'pydantic' and (a, b) not in QUICK_PAIRS[:5]:
                 continue
             obs.append({'h': 'gen', 'kind': kind, 'stack': stack, 'ann': [a, b], 'prefix': '/api' if a != 'prefix' else ''})
+        # explicit parameter / result schemas handed over by the user, own and shared between two methods
+        for anns in (['explicit'], ['explicit', 'none'], ['shared_explicit', 'shared_explicit'], ['none', 'explicit']):
+            obs.append({'h': 'gen', 'kind': kind, 'stack': stack, 'ann': anns, 'prefix': '/api'})
         if stack in ('doc', 'base+doc'):
             # docstring sections that leave things out: no type, empty description, summary only
             for docform, a in it.product(('untyped', 'nodesc', 'summary'), ('none', 'text')):
@@ -221,6 +224,29 @@ def h_gen(ob):
                 kw['servers'] = srv
                 user_objects[f'servers{i}'] = srv
                 mk.append(u)
+            elif a in ('explicit', 'shared_explicit'):
+                # explicit schemas handed over by the user (own objects, or ONE list of descriptors shared by several methods)
+                if kind == 'openrpc':
+                    if a == 'shared_explicit' and 'shared_explicit' in user_objects:
+                        ps = user_objects['shared_explicit']
+                    else:
+                        ps = [openrpc.ContentDescriptor(name='a', schema={'type': 'integer'}),
+                              openrpc.ContentDescriptor(name='b', schema={'type': 'string'})]
+                        user_objects['shared_explicit' if a == 'shared_explicit' else f'explicit{i}'] = ps
+                    kw['params_schema'] = ps
+                    rs = openrpc.ContentDescriptor(name='result', schema={'type': 'integer'})
+                    kw['result_schema'] = rs
+                    user_objects[f'explicit_result{i}'] = [rs]
+                else:
+                    if a == 'shared_explicit' and 'shared_explicit' in user_objects:
+                        ps = user_objects['shared_explicit'][0]
+                    else:
+                        ps = {'a': {'type': 'integer'}, 'b': {'type': 'string'}}
+                        user_objects['shared_explicit' if a == 'shared_explicit' else f'explicit{i}'] = [ps]
+                    kw['params_schema'] = ps
+                    rs = {'type': 'integer'}
+                    kw['result_schema'] = rs
+                    user_objects[f'explicit_result{i}'] = [rs]
             elif a == 'prefix' and kind == 'openapi':
                 # prefixes that are LEADING SUBSTRINGS of generated component names (MethodNParameters, JsonRpcRequest_...)
                 kw['component_name_prefix'] = ('Method', 'Json', 'Pfx')[i % 3]
